@@ -259,11 +259,31 @@ def payload(bundle):
 
 
 # -- encoder ----------------------------------------------------------------------
-def _with_crc(arr, crc_type):
-    if crc_type == 0:
+def _wide_uint(val):
+    ''' A legal but not shortest-form encoding of an unsigned integer (one head size up). '''
+    if val < 24:
+        return b'\x18' + bytes([val])
+    if val < 1 << 8:
+        return b'\x19' + val.to_bytes(2, 'big')
+    if val < 1 << 16:
+        return b'\x1a' + val.to_bytes(4, 'big')
+    return b'\x1b' + val.to_bytes(8, 'big')
+
+
+def _dumps_array(arr, wide=()):
+    ''' Definite-length array; the items whose index is in ``wide`` (unsigned integers) get a wider head than necessary. '''
+    if not wide:
         return cbor2.dumps(arr)
+    assert len(arr) < 24
+    return bytes([0x80 | len(arr)]) + b''.join(
+        _wide_uint(item) if ix in wide and isinstance(item, int) and 0 <= item < 1 << 32 else cbor2.dumps(item) for (ix, item) in enumerate(arr))
+
+
+def _with_crc(arr, crc_type, wide=()):
+    if crc_type == 0:
+        return _dumps_array(arr, wide)
     width = 2 if crc_type == 1 else 4
-    raw = cbor2.dumps(arr + [bytes(width)])
+    raw = _dumps_array(arr + [bytes(width)], wide)
     val = refcrc.crc16_x25(raw) if crc_type == 1 else refcrc.crc32c(raw)
     return raw[:-width] + val.to_bytes(width, 'big')
 
@@ -273,11 +293,11 @@ def encode_primary(pri):
            text_to_eid(pri.get('report_to')), [pri['create_time'], pri['seqno']], pri.get('lifetime', 3600000)]
     if pri['flags'] & FLAG_IS_FRAGMENT:
         arr += [pri['frag_offset'], pri['total_adu_len']]
-    return _with_crc(arr, pri['crc_type'])
+    return _with_crc(arr, pri['crc_type'], pri.get('wide', ()))
 
 
 def encode_block(blk):
-    return _with_crc([blk['type'], blk['num'], blk.get('flags', 0), blk.get('crc_type', 0), bytes(blk['btsd'])], blk.get('crc_type', 0))
+    return _with_crc([blk['type'], blk['num'], blk.get('flags', 0), blk.get('crc_type', 0), bytes(blk['btsd'])], blk.get('crc_type', 0), blk.get('wide', ()))
 
 
 def encode_bundle(pri, blocks):
